@@ -113,6 +113,7 @@ type SeqScn struct {
 	Diff    bool          `json:"diff,omitempty"` // C02: lock-step differential against a cache-less server
 	Faults  []simfs.Fault `json:"faults,omitempty"`
 	Direct  *HandleScn    `json:"direct,omitempty"` // C05/C06: direct concurrent drive of the handle table instead of a request history
+	Race    *AttrRaceScn  `json:"race,omitempty"`   // C11: concurrent SETATTR requests for one object instead of a request history
 	Sched   SchedCfg      `json:"sched"`
 	Segment bool          `json:"segment,omitempty"`
 	UpdAt   int           `json:"upd_at,omitempty"` // runtime option update before this op index (0 = none)
